@@ -72,7 +72,14 @@ pub fn msg_header(mtype: u8, timestamped: Option<bool>) -> impl Strategy<Value =
         any::<u16>(),
         any::<u16>(),
     )
-        .prop_map(move |(rpg, size, channel, seq, (date, time), seg_count, seg_num)| MsgHeaderSpec {
+        .prop_map(move |(mut rpg, size, channel, seq, (date, time), seg_count, seg_num)| {
+            // Input precondition: a record whose bytes 4..6 spell "BZ" is by definition a compressed
+            // record (C05), so a message stream that starts a record must not carry "BZ" at bytes 4..6 of
+            // its leading 12 channel-terminal-manager bytes (real streams carry zeros there).
+            if rpg[4] == b'B' && rpg[5] == b'Z' {
+                rpg[5] = b'z';
+            }
+            MsgHeaderSpec {
             rpg,
             size,
             channel,
@@ -82,6 +89,7 @@ pub fn msg_header(mtype: u8, timestamped: Option<bool>) -> impl Strategy<Value =
             time,
             seg_count,
             seg_num,
+            }
         })
 }
 
